@@ -37,6 +37,8 @@ def run_one(name, patch, props, tier="quick"):
             cmd = [os.path.join(VERIF, "check"), p, "--tier", tier]
             if "--jobs" in sys.argv:
                 cmd += ["--workers", str(max(2, 16 // int(sys.argv[sys.argv.index("--jobs") + 1])))]
+            if "--stride" in sys.argv:
+                cmd += ["--stride", sys.argv[sys.argv.index("--stride") + 1]]
             r = subprocess.run(cmd, capture_output=True, text=True, env=env, cwd=VERIF)
             lines = r.stdout.splitlines()
             clauses = sorted({l.strip().split()[0] for l in lines if l.strip().startswith("clause=")})
@@ -48,7 +50,7 @@ def run_one(name, patch, props, tier="quick"):
 
 
 def main():
-    only = [a for k, a in enumerate(sys.argv[1:]) if not a.startswith("--") and sys.argv[k] != "--jobs"]
+    only = [a for k, a in enumerate(sys.argv[1:]) if not a.startswith("--") and sys.argv[k] not in ("--jobs", "--stride")]
     jobs = []
     sd = os.path.join(VERIF, "seeded")
     for name in sorted(os.listdir(sd)):
